@@ -29,6 +29,8 @@ inductive Ev where
   | loadMeta (r : Rid)                -- reader: atomic_read(meta.json) → meta_j, j = latest
   | openFile (r : Rid) (p : Path)     -- reader: open_read of one segment component
   | release (r : Rid)                 -- reader: META_LOCK file removed
+  | warm (r : Rid)                    -- reader: every registered `Warmer::warm` returned Ok for
+                                      -- the new searcher (`warm_new_searcher_generation`)
   | publish (r : Rid)                 -- reader: ArcSwap::store of the new searcher
   | create (p : Path) (bytes : Nat)   -- writer: a segment file is written (not yet referenced)
   | saveMeta (files : List Path)      -- writer: SaveMeta j (j = number of metas saved before)
@@ -36,6 +38,8 @@ inductive Ev where
   | gcList (living : List Path)       -- GC: living set computed; everything else is doomed
   | gcRelease
   | gcDelete (p : Path)
+  | mLock (r : Rid)                   -- reader: `reload()` takes the reader's `reload_lock`
+  | mUnlock (r : Rid)                 -- reader: … and drops the guard when it returns
 deriving DecidableEq, Repr
 
 inductive Holder where
@@ -62,6 +66,8 @@ structure RState where
   /-- successful opens -/
   handles : List Handle := []
   failed : Bool := false
+  /-- the warmers have run on this reload's searcher -/
+  warmed : Bool := false
 deriving Repr
 
 structure St where
@@ -81,6 +87,8 @@ structure St where
   pubs : List (Rid × Nat) := []
   /-- `openFile` calls that hit a missing path -/
   badOpens : List (Rid × Path) := []
+  /-- holder of each reader's `reload_lock` -/
+  mutex : Nat → Option Rid := fun _ => none
 
 def init : St := {}
 
@@ -108,6 +116,7 @@ def step (s : St) : Ev → St
   | .release r =>
     { s with lock := if s.lock = some (.reader r) then none else s.lock,
              rs := upd s.rs r { s.rs r with phase := .released } }
+  | .warm r => { s with rs := upd s.rs r { s.rs r with warmed := true } }
   | .publish r =>
     match (s.rs r).j with
     | some j => { s with pubs := s.pubs ++ [(r, j)],
@@ -122,6 +131,8 @@ def step (s : St) : Ev → St
   | .gcRelease => { s with lock := if s.lock = some .gc then none else s.lock }
   | .gcDelete p =>
     { s with fs := s.fs.filter (fun q => q.1 != p), deleted := p :: s.deleted }
+  | .mLock r => { s with mutex := fun x => if x = r.1 then some r else s.mutex x }
+  | .mUnlock r => { s with mutex := fun x => if x = r.1 then none else s.mutex x }
 
 def run (s : St) (t : List Ev) : St := t.foldl step s
 
@@ -158,6 +169,7 @@ def ok (d : Disc) (s : St) : Ev → Bool
     if d.readerLock then
       s.lock = some (.reader r) && ((s.rs r).phase = .locked || (s.rs r).phase = .loaded)
     else (s.rs r).phase = .loaded
+  | .warm r => (s.rs r).phase = .released && !(s.rs r).failed
   | .publish r =>
     (s.rs r).phase = .released && !(s.rs r).failed &&
     (match (s.rs r).j with
@@ -171,6 +183,8 @@ def ok (d : Disc) (s : St) : Ev → Bool
     (metaFiles s (s.metas.length - 1)).all (fun p => living.contains p)
   | .gcRelease => s.lock = some .gc
   | .gcDelete p => s.gcDels.contains p
+  | .mLock _ => true
+  | .mUnlock _ => true
 
 /-- run a per-step predicate along a trace -/
 def check (f : St → Ev → Bool) : St → List Ev → Bool
@@ -196,9 +210,39 @@ def seqOk (ρ : Nat) (s : St) : Ev → Bool
 
 def sequential (ρ : Nat) (t : List Ev) : Bool := check (seqOk ρ) init t
 
+/-- The reload mutex of reader `ρ`, as the source uses it: `reload()` binds the guard first
+(`mLock`, possible only while nobody holds the mutex), loads and publishes while holding it, and
+drops it when it returns after the store (`mUnlock`). (I/O faults are not part of this model: a
+reload that has started runs to its publication, cf. `C05_reload_can_always_complete`.)
+-- mirrors: src/reader/mod.rs::reload (`let _reload_guard = self.reload_lock.lock()` … `store`) -/
+def mutexOk (ρ : Nat) (s : St) : Ev → Bool
+  | .mLock r => r.1 != ρ || (s.mutex ρ = none && (s.rs r).phase = .idle)
+  | .acquire r => r.1 != ρ || s.mutex ρ = some r
+  | .mUnlock r => r.1 != ρ || (s.mutex ρ = some r && (s.rs r).phase = .published)
+  | _ => true
+
+def mutexDisciplined (ρ : Nat) (t : List Ev) : Bool := check (mutexOk ρ) init t
+
+/-- reader `ρ` publishes only searchers on which its warmers have run
+-- mirrors: src/reader/mod.rs::create_searcher (`warm_new_searcher_generation(..)?` before `Ok(searcher)`)
+-- and ::reload (`create_searcher(..)?` before `searcher.store`) -/
+def warmOk (ρ : Nat) (s : St) : Ev → Bool
+  | .publish r => r.1 != ρ || (s.rs r).warmed
+  | _ => true
+
+def warmedBeforePublish (ρ : Nat) (t : List Ev) : Bool := check (warmOk ρ) init t
+
 /-- the `j`s published by reader `ρ`, in publication order -/
 def pubsOf (ρ : Nat) (s : St) : List Nat :=
   (s.pubs.filter (fun x => x.1.1 == ρ)).map (·.2)
+
+/-- what `IndexReader::searcher()` of reader `ρ` returns in state `s`: the `ArcSwap` holds the last
+published searcher (`none` only before the reader exists); the commit it shows -/
+def served (ρ : Nat) (s : St) : Option Nat := (pubsOf ρ s).getLast?
+
+/-- the reload whose searcher reader `ρ` currently serves -/
+def servedReload (ρ : Nat) (s : St) : Option Rid :=
+  ((s.pubs.filter (fun x => x.1.1 == ρ)).map (·.1)).getLast?
 
 /-- a present path that no saved meta references (an uncommitted segment's file) -/
 def uncommitted (s : St) (p : Path) : Prop := present s p = true ∧ ∀ fs ∈ s.metas, p ∉ fs
